@@ -5,6 +5,7 @@ import (
 	"go/constant"
 	"go/token"
 	"go/types"
+	"hash/fnv"
 	"sort"
 	"strings"
 
@@ -13,18 +14,20 @@ import (
 
 // Canon renders an SSA value as a canonical symbolic expression that does not
 // depend on local variable names, statement order or temporaries:
-//   parameters        p0, p1 ...            (receiver is p0)
-//   captured values   ^<expr in the enclosing function>
-//   field reads       X.field
-//   calls             call(pkg.Func)(args)   invoke(pkg.Iface.Method)(recv,args)   dyn(fv)(args)
-//   tuple element     E#i
-//   constants         "s", 42, true, nil
-//   operators         (X + Y), (X == Y), !X
+//
+//	parameters        p0, p1 ...            (receiver is p0)
+//	captured values   ^<expr in the enclosing function>
+//	field reads       X.field
+//	calls             call(pkg.Func)(args)   invoke(pkg.Iface.Method)(recv,args)   dyn(fv)(args)
+//	tuple element     E#i
+//	constants         "s", 42, true, nil
+//	operators         (X + Y), (X == Y), !X
+//
 // Loads of address-taken locals are replaced by the unique reaching store
 // when there is one.
 func (e *Engine) Canon(v ssa.Value) string {
 	c := &canoner{e: e, seen: map[ssa.Value]bool{}}
-	return c.val(v, 9)
+	return c.val(v, 60)
 }
 
 type canoner struct {
@@ -102,10 +105,31 @@ func constStr(k *ssa.Const) string {
 	return k.Value.ExactString()
 }
 
+// val is context independent: the rendering of a value does not depend on
+// where it is referenced from (memoised unless a phi cycle is being expanded);
+// very long renderings are abbreviated to a prefix plus a content hash.
 func (c *canoner) val(v ssa.Value, d int) string {
 	if v == nil {
 		return "<nil>"
 	}
+	if len(c.seen) == 0 {
+		if s, ok := c.e.canonMemo[v]; ok {
+			return s
+		}
+	}
+	s := c.val0(v, d)
+	if len(s) > 700 {
+		h := fnv.New32a()
+		h.Write([]byte(s))
+		s = s[:120] + fmt.Sprintf("…⟦%08x⟧", h.Sum32())
+	}
+	if len(c.seen) == 0 {
+		c.e.canonMemo[v] = s
+	}
+	return s
+}
+
+func (c *canoner) val0(v ssa.Value, d int) string {
 	if d <= 0 {
 		return "…"
 	}
@@ -291,6 +315,19 @@ func (c *canoner) load(u *ssa.UnOp, d int) string {
 		}
 		return allocName(a)
 	case *ssa.FreeVar:
+		// a store to the captured variable earlier in the same block with no
+		// call in between is the value read
+		if b := u.Block(); b != nil {
+			ui := indexIn(b, u)
+			for i := ui - 1; i >= 0; i-- {
+				if st, ok := b.Instrs[i].(*ssa.Store); ok && st.Addr == a {
+					return c.val(st.Val, d)
+				}
+				if _, ok := b.Instrs[i].(ssa.CallInstruction); ok {
+					break
+				}
+			}
+		}
 		// captured by reference: if the variable has a single store in the
 		// enclosing function and no closure writes it, it is that value
 		if mc := c.e.parents[a.Parent()]; mc != nil {
@@ -489,25 +526,25 @@ func (e *Engine) InstrStr(in ssa.Instruction) string {
 	c := &canoner{e: e, seen: map[ssa.Value]bool{}}
 	switch x := in.(type) {
 	case *ssa.Call:
-		return c.call(&x.Call, 9)
+		return c.call(&x.Call, 60)
 	case *ssa.Go:
-		return "go " + c.call(&x.Call, 9)
+		return "go " + c.call(&x.Call, 60)
 	case *ssa.Defer:
-		return "defer " + c.call(&x.Call, 9)
+		return "defer " + c.call(&x.Call, 60)
 	case *ssa.Store:
-		a := c.val(x.Addr, 9)
+		a := c.val(x.Addr, 60)
 		a = strings.TrimPrefix(a, "&")
-		return "store(" + a + " = " + c.val(x.Val, 9) + ")"
+		return "store(" + a + " = " + c.val(x.Val, 60) + ")"
 	case *ssa.Send:
-		return "send(" + c.val(x.Chan, 9) + ", " + c.val(x.X, 9) + ")"
+		return "send(" + c.val(x.Chan, 60) + ", " + c.val(x.X, 60) + ")"
 	case *ssa.Return:
 		var rs []string
 		for _, r := range x.Results {
-			rs = append(rs, c.val(r, 9))
+			rs = append(rs, c.val(r, 60))
 		}
 		return "return(" + strings.Join(rs, ", ") + ")"
 	case *ssa.MapUpdate:
-		return "mapupdate(" + c.val(x.Map, 9) + "[" + c.val(x.Key, 9) + "] = " + c.val(x.Value, 9) + ")"
+		return "mapupdate(" + c.val(x.Map, 60) + "[" + c.val(x.Key, 60) + "] = " + c.val(x.Value, 60) + ")"
 	case *ssa.Panic:
 		return "panic"
 	case *ssa.RunDefers:
@@ -516,9 +553,9 @@ func (e *Engine) InstrStr(in ssa.Instruction) string {
 		var st []string
 		for _, s := range x.States {
 			if s.Dir == types.SendOnly {
-				st = append(st, "send("+c.val(s.Chan, 9)+", "+c.val(s.Send, 9)+")")
+				st = append(st, "send("+c.val(s.Chan, 60)+", "+c.val(s.Send, 60)+")")
 			} else {
-				st = append(st, "recv("+c.val(s.Chan, 9)+")")
+				st = append(st, "recv("+c.val(s.Chan, 60)+")")
 			}
 		}
 		blocking := "blocking"
@@ -528,7 +565,7 @@ func (e *Engine) InstrStr(in ssa.Instruction) string {
 		return "select[" + blocking + "](" + strings.Join(st, "; ") + ")"
 	}
 	if v, ok := in.(ssa.Value); ok {
-		return c.val(v, 9)
+		return c.val(v, 60)
 	}
 	return fmt.Sprintf("%T", in)
 }
